@@ -746,16 +746,29 @@ fn run_case(out: &mut Out, idx: u64, class: &str, p: Params, script: &[Cmd]) {
     let hdr = header(&p);
     let w = World::new(p, &mut rng);
     let mut r = Runner { w, rng, lines: vec![], fwd: vec![], nontrivial: false, dups: 0 };
+    // the forwarding sets may have moved since the last snapshot (a replayed, shrunk script may
+    // have lost its `snap` lines): every publish is preceded by a fresh snapshot
+    let mut dirty = true;
     for c in script {
         if r.w.stalled {
             break;
         }
         match c {
-            Cmd::Hb(k) => r.do_hb(*k),
-            Cmd::Snap => r.do_snap(),
+            Cmd::Hb(k) => {
+                r.do_hb(*k);
+                dirty = true;
+            }
+            Cmd::Snap => {
+                r.do_snap();
+                dirty = false;
+            }
             Cmd::Pub(s, m) => {
                 if *s < r.w.p.n {
-                    r.do_pub(*s, *m)
+                    if dirty {
+                        r.do_snap();
+                    }
+                    r.do_pub(*s, *m);
+                    dirty = *m != 'e';
                 }
             }
         }
